@@ -58,6 +58,10 @@ def make_tree(rng, fam):
     a = float(np.round(rng.uniform(0.3, 2.0), 3)) * (1 if rng.random() < 0.7 else -1)
     b = float(np.round(rng.uniform(3.0, 6.0), 3))
     x = ('x',)
+    if fam in ('exp', 'sin', 'cos') and rng.random() < 0.3:
+        # a complex rate: the function is real (or zero) at z = 0 but its Taylor coefficients are not real
+        ac = ('add', ('c', a if rng.random() < 0.5 else 0.0), ('ci', float(np.round(rng.uniform(0.3, 2.0), 3))))
+        return ('fn', fam, ('mul', ac, x)), None
     if fam == 'exp':
         return ('fn', 'exp', ('mul', ('c', a), x)), None
     if fam == 'inv':
@@ -99,6 +103,8 @@ def cases(rng, tier, shard, nshards):
         default_r = rng.random() < 0.45
         cz = rng.random() < 0.5
         z0 = [float(np.round(rng.uniform(-1, 1), 3)), float(np.round(rng.uniform(-1, 1), 3)) if cz else 0.0]
+        if rng.random() < 0.1:
+            z0 = [0.0, 0.0]              # the default expansion point, exactly
         tree, sing = make_tree(rng, fam)
         if rng.random() < 0.03 and fam != 'poly':
             yield dict(family=fam, tree=tree, singularity=sing, z0=z0, n=int(rng.integers(1, 14)), inner_n=int(rng.integers(1, 14)),
